@@ -594,6 +594,74 @@ def rule_r10(prog, res) -> None:
                 res.ok("C15.R10", site + " range", "the inversion is not evaluated at the given limits")
 
 
+def rule_r11(prog, res) -> None:
+    """the configured cosmology reaches every distance conversion: a call of an in-package function that takes a
+    `cosmology` parameter must pass it whenever the caller has one at hand (its own `cosmology` parameter, a
+    configuration object, or `self.cosmology`) — an omitted argument silently falls back to the default cosmology, so
+    results with a non-default cosmology are computed with two different cosmologies (which stays invisible for every
+    test that uses the default)"""
+
+    def has_attr(ci: ClassInfo, name: str) -> bool:
+        for c_ in prog.mro(ci):
+            if name in getattr(c_, "class_ann", {}) or name in getattr(c_, "methods", {}) or name in (getattr(c_, "slots", None) or ()):
+                return True
+            if name in getattr(c_, "inst_attrs", {}):
+                return True
+        return False
+
+    def at_hand(fi: FuncInfo) -> str | None:
+        if "cosmology" in fi.param_names():
+            return "cosmology"
+        env = prog.func_env(fi)
+        a = fi.node.args
+        for prm in a.args + a.kwonlyargs:
+            try:
+                tys = env.type_of(ast.Name(id=prm.arg, ctx=ast.Load()))
+            except Exception:  # noqa: BLE001
+                tys = ()
+            for ty in tys:
+                if ty[0] == "cls" and has_attr(ty[1], "cosmology"):
+                    return f"{prm.arg}.cosmology"
+        return None
+
+    n = 0
+    for fi in prog.funcs:
+        for c in calls_in(fi):
+            try:
+                gs = [g for g in prog.resolve_call(fi, c).funcs() if "cosmology" in g.param_names()]
+            except Exception:  # noqa: BLE001
+                continue
+            if not gs:
+                continue
+            g = gs[0]
+            pos = [q.arg for q in g.node.args.args if q.arg not in ("self", "cls")]
+            given = kwarg(c, "cosmology")
+            if given is None and "cosmology" in pos and pos.index("cosmology") < len(c.args) and not any(isinstance(x, ast.Starred) for x in c.args):
+                given = c.args[pos.index("cosmology")]
+            if given is None and any(k.arg is None for k in c.keywords):
+                continue  # forwarded through **kwargs: followed by the dict rules (R2/R3)
+            n += 1
+            res.touch(fi)
+            site = res.site(fi, f"{g.name}(cosmology=…)")
+            if given is not None:
+                res.ok("C15.R11", site, f"passes cosmology={unparse(given)[:40]}")
+                continue
+            src = at_hand(fi)
+            if src is None:
+                res.ok("C15.R11", site, "no configured cosmology in scope: the documented default applies", nontrivial=False)
+                continue
+            res.violation(
+                "C15.R11",
+                fi,
+                c,
+                f"{g.qualname} is called without its `cosmology` argument although {src} is at hand: the conversion silently uses the default cosmology, "
+                "while other conversions of the same measurement use the configured one",
+                key_extra=f"cosmology-omitted-{g.name}",
+            )
+    if n < 10:
+        raise AnalysisError(f"C15.R11: only {n} calls of cosmology-taking functions found, minimum 10")
+
+
 RULES = [
     ("C15.R1", rule_r1, QUICK),
     ("C15.R2", rule_r2, QUICK),
@@ -605,4 +673,5 @@ RULES = [
     ("C15.R8", rule_r8, QUICK),
     ("C15.R9", rule_r9, QUICK),
     ("C15.R10", rule_r10, QUICK),
+    ("C15.R11", rule_r11, QUICK),
 ]
